@@ -80,7 +80,25 @@ func c05Parse(src string) (class, msg string, accepted bool) {
 	if p.Ln != ln || p.Col != col || p.Ln < 1 || p.Col < 1 {
 		return "error-lncol-inconsistent", fmt.Sprintf("offset %d rendered %d:%d, it is %d:%d", p.Pos, p.Ln, p.Col, ln, col), false
 	}
-	return "", "", false
+	// the same text offered under another script name: the same diagnostic, naming THAT script
+	func() {
+		defer func() {
+			if r := recover(); r != nil {
+				class, msg = "panic-escapes-parser", fmt.Sprintf("second parse of the same text panicked: %v", r)
+			}
+		}()
+		_, e2 := parser.ParsePipeline("dir/other.ppl", src)
+		pe2, ok2 := e2.(*errchain.PlError)
+		switch {
+		case e2 == nil || !ok2 || pe2 == nil || len(pe2.PosChain) < 1:
+			class, msg = "second-parse-differs", fmt.Sprintf("first parse: %v; the same text under another name: %v", err, e2)
+		case pe2.PosChain[0].File != "dir/other.ppl":
+			class, msg = "error-wrong-script-name", fmt.Sprintf("parsed as dir/other.ppl, the error names %q", pe2.PosChain[0].File)
+		case pe2.Err != pe.Err || pe2.PosChain[0].Pos != p.Pos:
+			class, msg = "second-parse-differs", fmt.Sprintf("first parse: %v; the same text under another name: %v", err, e2)
+		}
+	}()
+	return class, msg, false
 }
 
 // c05LastToken: start offset of the last token that is not a separator or
@@ -442,7 +460,7 @@ func init() {
 		Level: "model_checking",
 		Rule: "(A) every byte string of length <=4 (thorough <=5) over a 36-byte alphabet (one byte per lexer branch, incl. CR and invalid UTF-8 bytes); (B) every sequence of <=3 (thorough <=4) tokens from a 56-token alphabet (every token kind and keyword, malformed numbers, unterminated strings, bad escapes); " +
 			"(C) 31 valid programs covering every production x every token position x {delete, duplicate, replace by each of the 56 tokens}, 1 deviation (thorough 2); (E) every string body of <=4 (thorough <=5) symbols over {a LF CR backslash \" ' ` é 0x80 n} between each of the 5 quote styles, as an assignment and as a call argument followed by another line; (D) nesting depth 10/100/10^4 (thorough 10^5) of every bracket, unary operator, call, index, attribute, block; " +
-			"oracle: ParsePipeline returns a tree xor a PlError naming the script with 0 <= offset <= len and consistent line/column, never (nil,nil), never a position-less error; the exported lexer's items tile the source (gaps only blanks)",
+			"oracle: ParsePipeline returns a tree xor a PlError naming the script with 0 <= offset <= len and consistent line/column, never (nil,nil), never a position-less error; a rejected text offered again under another script name gives the same diagnostic naming that script; the exported lexer's items tile the source (gaps only blanks)",
 		Assumptions: []string{"a worker that dies or stops making progress is reported with the index of the text it was parsing"},
 		Run:            c05Run,
 		Replay:         c05Replay,
